@@ -33,12 +33,13 @@ struct Scn
     int backend;                         // merkle: 0 seq 1 avx 2 avx512
     u64 rows, cols, dim, batch;          // merkle
     u64 size;                            // parcpy
+    int content = 0;                     // input values: 0 all different, 1 every element the same non-zero word (all rows / columns identical), 2 all zero
 };
 static std::string scnstr(const Scn &s, int T)
 {
     return fmt("kind=%s n=%llu next=%llu ncols=%llu nphase=%llu nblock=%llu dst=%d backend=%d rows=%llu cols=%llu dim=%llu batch=%llu size=%llu T=%d", kname[s.kind], (unsigned long long)s.n,
                (unsigned long long)s.next, (unsigned long long)s.ncols, (unsigned long long)s.nphase, (unsigned long long)s.nblock, s.dst, s.backend, (unsigned long long)s.rows,
-               (unsigned long long)s.cols, (unsigned long long)s.dim, (unsigned long long)s.batch, (unsigned long long)s.size, T);
+               (unsigned long long)s.cols, (unsigned long long)s.dim, (unsigned long long)s.batch, (unsigned long long)s.size, T) + (s.content ? fmt(" content=%d", s.content) : std::string());
 }
 static bool parse_scn(const std::string &c, Scn &s, int &T)
 {
@@ -48,7 +49,7 @@ static bool parse_scn(const std::string &c, Scn &s, int &T)
     for (int i = 0; i < NK; i++) if (k == kname[i]) s.kind = i;
     if (s.kind < 0) return false;
     s.n = cu(m, "n"); s.next = cu(m, "next"); s.ncols = cu(m, "ncols"); s.nphase = cu(m, "nphase"); s.nblock = cu(m, "nblock"); s.dst = (int)cu(m, "dst");
-    s.backend = (int)cu(m, "backend"); s.rows = cu(m, "rows"); s.cols = cu(m, "cols"); s.dim = cu(m, "dim"); s.batch = cu(m, "batch"); s.size = cu(m, "size");
+    s.backend = (int)cu(m, "backend"); s.rows = cu(m, "rows"); s.cols = cu(m, "cols"); s.dim = cu(m, "dim"); s.batch = cu(m, "batch"); s.size = cu(m, "size"); s.content = (int)cu(m, "content", 0);
     T = (int)(long long)strtoll(cs(m, "T", "1").c_str(), 0, 10);
     return true;
 }
@@ -73,7 +74,7 @@ static void sizes(const Scn &s, size_t &a, size_t &b, size_t &c)
 }
 static void fill(const Scn &s, Bufs &B)
 {
-    for (size_t i = 0; i < B.nsrc; i++) B.src[i].fe = (i * 0x9E3779B97F4A7C15ULL + 12345) | 1;
+    for (size_t i = 0; i < B.nsrc; i++) B.src[i].fe = s.content == 0 ? ((i * 0x9E3779B97F4A7C15ULL + 12345) | 1) : s.content == 1 ? 0x0123456789ABCDEFULL : 0;
     for (size_t i = 0; i < B.ndst; i++) B.dst[i].fe = 0x1111111111111111ULL;
     for (size_t i = 0; i < B.nbuf; i++) B.buf[i].fe = 0x2222222222222222ULL;
     (void)s;
@@ -408,7 +409,20 @@ static void granted_pass(const Scn &s, const Exec &ref, Tot &tot)
     }
     ts::set_team_cap(128);
 }
-static void serial_pass(const Scn &s, bool th, Tot &tot)
+static void serial_pass_content(const Scn &s, bool th, Tot &tot);
+// a shortcut keyed on the VALUES of the input (a row equal to its neighbour, a zero row) changes which accesses the members make:
+// every scenario is run with all-different, all-equal and all-zero input
+static void serial_pass(const Scn &s0, bool th, Tot &tot)
+{
+    for (int content = 0; content < 3; content++)
+    {
+        Scn s = s0;
+        s.content = content;
+        if (content && (s.kind == K_PARCPY || s.kind == K_PARZERO)) continue; // pure copies
+        serial_pass_content(s, th, tot);
+    }
+}
+static void serial_pass_content(const Scn &s, bool th, Tot &tot)
 {
     ts::set_mode(ts::SERIAL);
     ts::set_order_fn(nullptr);
